@@ -50,6 +50,7 @@ NEWTYPES = {
     "Page": "u64", "PhysFrame": "u64", "PageTableEntry": "u64", "PageTableFlags": "u64",
     "SegmentSelector": "u16", "PrivilegeLevel": "u8", "DescriptorFlags": "u64",
     "SelectorErrorCode": "u64", "Pcid": "u16", "Dr7Value": "u64", "Dr7Flags": "u64", "Dr6Flags": "u64",
+    "DebugAddressRegisterNumber": "u8", "BreakpointCondition": "u8", "BreakpointSize": "u8", "DescriptorTable": "u8",
 }
 # Field names of the erased single-field structs (reading the field is the identity).
 NEWTYPE_FIELDS = {"Page": "start_address", "PhysFrame": "start_address", "PageTableEntry": "entry",
@@ -67,7 +68,8 @@ STRUCTS = {
 }
 GENERIC_OWNERS = {"Page", "PhysFrame", "PageRange", "PageRangeInclusive", "PhysFrameRange", "PhysFrameRangeInclusive"}
 FLAG_TYPES = {"PageTableFlags", "DescriptorFlags", "Dr7Flags", "Dr6Flags"}
-ENUMS = {"PageTableLevel", "PrivilegeLevel"}
+ENUMS = {"PageTableLevel", "PrivilegeLevel", "DebugAddressRegisterNumber", "BreakpointCondition", "BreakpointSize",
+         "DescriptorTable"}
 # Enums with data: name -> [(variant, [payload types])]; erased to the tuple (tag : u8, payload slots...), the slots
 # being the pointwise union of the variants' payloads (unused slots are zero).
 DATA_ENUMS = {"Descriptor": [("UserSegment", ["u64"]), ("SystemSegment", ["u64", "u64"])]}
@@ -253,6 +255,17 @@ TARGETS = [
     T(IDT, "SelectorErrorCode", "is_null", "SelectorErrorCode"),
     T(TLB, "Pcid", "new", "Pcid"),
     T(TLB, "Pcid", "value", "Pcid"),
+    T(DBG, "DebugAddressRegisterNumber", "new", "DebugAddressRegisterNumber"),
+    T(DBG, "DebugAddressRegisterNumber", "get", "DebugAddressRegisterNumber"),
+    T(DBG, "Dr6Flags", "trap", "Dr6Flags"),
+    T(DBG, "Dr7Flags", "local_breakpoint_enable", "Dr7Flags"),
+    T(DBG, "Dr7Flags", "global_breakpoint_enable", "Dr7Flags"),
+    T(DBG, "BreakpointCondition", "from_bits", "BreakpointCondition"),
+    T(DBG, "BreakpointCondition", "bit_range", "BreakpointCondition"),
+    T(DBG, "BreakpointSize", "bit_range", "BreakpointSize"),
+    T(DBG, "BreakpointSize", "new", "BreakpointSize"),
+    T(DBG, "BreakpointSize", "from_bits", "BreakpointSize"),
+    T(IDT, "SelectorErrorCode", "descriptor_table", "SelectorErrorCode"),
     T(DBG, "Dr7Value", "valid_bits", "Dr7Value"),
     T(DBG, "Dr7Value", "from_bits", "Dr7Value"),
     T(DBG, "Dr7Value", "from_bits_truncate", "Dr7Value"),
@@ -262,6 +275,10 @@ TARGETS = [
     T(DBG, "Dr7Value", "remove_flags", "Dr7Value"),
     T(DBG, "Dr7Value", "toggle_flags", "Dr7Value"),
     T(DBG, "Dr7Value", "set_flags", "Dr7Value"),
+    T(DBG, "Dr7Value", "condition", "Dr7Value"),
+    T(DBG, "Dr7Value", "set_condition", "Dr7Value"),
+    T(DBG, "Dr7Value", "size", "Dr7Value"),
+    T(DBG, "Dr7Value", "set_size", "Dr7Value"),
 ]
 
 SIGS_PATH = os.path.join(os.path.dirname(os.path.abspath(__file__)), "fn_sigs.json")
@@ -453,6 +470,11 @@ class P:
             self.i += 1
             rhs = self.expr(lvl + 1, nostruct)
             lhs = ("bin", op, lhs, rhs)
+        if lvl == 0 and self.at(".."):
+            # `a..b` with computed bounds (a `Range<usize>` value): the pair (a, b)
+            self.i += 1
+            hi = self.expr(1, nostruct)
+            return ("tuple", [lhs, hi])
         return lhs
 
     def cast(self, nostruct):
@@ -511,6 +533,9 @@ class P:
 
     def atom(self, nostruct):
         p = self.peek()
+        if p[0] == "str":        # message of `expect(..)`: ignored
+            self.i += 1
+            return ("str",)
         if p[0] == "num":
             self.i += 1
             if self.at("..") or self.at("..="):
@@ -827,6 +852,8 @@ def conv_ty(t, selfty=None, assoc=None):
         return Ty("option", conv_ty(args[0], selfty, assoc))
     if name == "Result":
         return Ty("result", conv_ty(args[0], selfty, assoc))
+    if name == "Range" and args and args[0][0] == "usize":      # `Range<usize>`: (start, end)
+        return Ty("tuple", [Ty("usize"), Ty("usize")], nom="Range")
     raise ValueError(f"type {name} not in the subset")
 
 
@@ -1392,7 +1419,12 @@ class Emit:
         if name == "get_bits" and ty.is_int():
             rg = args[0]
             if rg[0] != "range":
-                raise ValueError("get_bits with a non-literal range")
+                # a `Range<usize>` computed at run time: bit_field's assertions become part of the term
+                a = self.ex(rg, env, Ty("tuple", [Ty("usize"), Ty("usize")]))
+                if not (a[2].kind == "tuple" and len(a[2].arg) == 2 and all(t.kind == "usize" for t in a[2].arg)):
+                    raise ValueError("get_bits with a range that is not a Range<usize>")
+                return self.bind_all([rp, a], lambda xs: f"(Rust.getBitsDyn {xs[0]} {xs[1]}.1 {xs[1]}.2)", Ty(ty.kind),
+                                     impure_result=True)
             lo, hi = rg[1], rg[2] if rg[2] is not None else ty.width()
             if not (lo < hi <= ty.width()):
                 raise ValueError("get_bits range outside the word")
@@ -1669,11 +1701,22 @@ class Emit:
             env2[name] = (v, vty)
             return f"(let {v} := {newterm}\n  {cont(env2)})"
         rg = e[3][0]
+        setter, wrap_range = None, None
         if rg[0] != "range":
-            raise ValueError("set_bits with a non-literal range")
-        lo, hi = rg[1], rg[2] if rg[2] is not None else fty.width()
-        if not (lo < hi <= fty.width()):
-            raise ValueError("set_bits range outside the word")
+            # a `Range<usize>` computed at run time
+            rk, rt, rty = self.ex(rg, env, Ty("tuple", [Ty("usize"), Ty("usize")]))
+            if not (rty.kind == "tuple" and len(rty.arg) == 2 and all(x.kind == "usize" for x in rty.arg)):
+                raise ValueError("set_bits with a range that is not a Range<usize>")
+            if rk != "p":
+                rv = self.fresh()
+                wrap_range = (rt, rv)
+                rt = rv
+            setter = f"Rust.setBitsDyn {cur[1]} {rt}.1 {rt}.2"
+        else:
+            lo, hi = rg[1], rg[2] if rg[2] is not None else fty.width()
+            if not (lo < hi <= fty.width()):
+                raise ValueError("set_bits range outside the word")
+            setter = f"Rust.setBits {cur[1]} {lo} {hi}"
         kk, t, vt = self.ex(e[3][1], env, Ty(fty.kind))
         if not vt.same(Ty(fty.kind)):
             raise ValueError(f"set_bits value of type {vt}")
@@ -1683,11 +1726,15 @@ class Emit:
         newterm, vty = self.store(name, fields, w, env)
         env2 = dict(env)
         env2[name] = (v, vty)
-        inner = f"(R.bind (Rust.setBits {cur[1]} {lo} {hi} {{0}}) fun {w} =>\n  let {v} := {newterm}\n  {cont(env2)})"
+        inner = f"(R.bind ({setter} {{0}}) fun {w} =>\n  let {v} := {newterm}\n  {cont(env2)})"
         if kk == "p":
-            return inner.format(t)
-        u = self.fresh()
-        return f"(R.bind ({t}) fun {u} => " + inner.format(u) + ")"
+            res = inner.format(t)
+        else:
+            u = self.fresh()
+            res = f"(R.bind ({t}) fun {u} => " + inner.format(u) + ")"
+        if wrap_range is not None:      # the range expression is evaluated first (argument order)
+            res = f"(R.bind ({wrap_range[0]}) fun {wrap_range[1]} => {res})"
+        return res
 
     def mut_call(self, e, env, cont):
         """`x.method(args);` for a translated `&mut self` method: rebinds `x`."""
